@@ -104,6 +104,7 @@ type target struct {
 // Rewrite generates instrumented copies for h.Rewrite / h.Third into gdir and
 // registers them in ov.
 func Rewrite(h *Harness, ov map[string]string, gdir string) error {
+	detMaps = h.DetMaps
 	// overlay as it stands (patches, exports) so that go list sees the same tree
 	pre, _ := json.Marshal(map[string]any{"Replace": ov})
 	preOv := filepath.Join(gdir, "pre-overlay.json")
@@ -217,6 +218,27 @@ func rewritePkg(fset *token.FileSet, imp types.Importer, t *target, ov map[strin
 		ov[filepath.Join(t.outDir, t.files[i])] = out
 	}
 	return nil
+}
+
+// detMaps: harness.json "detmaps" (see vsched.RangeMap)
+var detMaps bool
+
+// detMapKey reports whether t is a map whose iteration vsched.RangeMap can order.
+func detMapKey(t types.Type) bool {
+	if t == nil {
+		return false
+	}
+	m, ok := t.Underlying().(*types.Map)
+	if !ok {
+		return false
+	}
+	switch k := m.Key().Underlying().(type) {
+	case *types.Chan:
+		return true
+	case *types.Basic:
+		return k.Info()&(types.IsString|types.IsInteger) != 0
+	}
+	return false
 }
 
 type rw struct {
@@ -539,9 +561,12 @@ func (w *rw) stmt(s ast.Stmt) ast.Stmt {
 		return x
 	case *ast.RangeStmt:
 		ct := chanOf(w.typeOf(x.X))
+		dm := detMaps && detMapKey(w.typeOf(x.X))
 		w.node(reflect.ValueOf(x))
 		if ct != nil {
 			x.X = w.call("vsched", "Range", x.X)
+		} else if dm {
+			x.X = w.call("vsched", "RangeMap", x.X)
 		}
 		x.Body.List = append([]ast.Stmt{w.tick()}, x.Body.List...)
 		return x
